@@ -1593,3 +1593,45 @@ Proof.
   intros [|[|k]] Hk; try lia; reflexivity.
 Qed.
 
+
+(* ---- round 7 (linearity): the banded matrix-vector product (three-case loop over the compact storage) is a linear
+   map of the vector through the library's own guarded vector operations, any n, any band widths, any ring. *)
+From OV Require Proofs.DenseBandLinear.
+
+Theorem band_mul_add : forall (A : Arith), RingLaws A -> forall (B : banded A) (x y : list A),
+  wfB B -> length x = bn B -> length y = bn B ->
+  exists xy u v uv, Model.Vector.vadd x y = Ok xy /\ band_mul B x = Ok u /\ band_mul B y = Ok v /\
+                    Model.Vector.vadd u v = Ok uv /\ band_mul B xy = Ok uv.
+Proof. intros A RL B x y. exact (DenseBandLinear.band_mul_add_lemma RL B x y). Qed.
+Check band_mul_add : forall (A : Arith), RingLaws A -> forall (B : banded A) (x y : list A),
+  wfB B -> length x = bn B -> length y = bn B ->
+  exists xy u v uv, Model.Vector.vadd x y = Ok xy /\ band_mul B x = Ok u /\ band_mul B y = Ok v /\
+                    Model.Vector.vadd u v = Ok uv /\ band_mul B xy = Ok uv.
+Print Assumptions band_mul_add.
+
+Theorem band_mul_sub : forall (A : Arith), RingLaws A -> forall (B : banded A) (x y : list A),
+  wfB B -> length x = bn B -> length y = bn B ->
+  exists xy u v uv, Model.Vector.vsub x y = Ok xy /\ band_mul B x = Ok u /\ band_mul B y = Ok v /\
+                    Model.Vector.vsub u v = Ok uv /\ band_mul B xy = Ok uv.
+Proof. intros A RL B x y. exact (DenseBandLinear.band_mul_sub_lemma RL B x y). Qed.
+Check band_mul_sub : forall (A : Arith), RingLaws A -> forall (B : banded A) (x y : list A),
+  wfB B -> length x = bn B -> length y = bn B ->
+  exists xy u v uv, Model.Vector.vsub x y = Ok xy /\ band_mul B x = Ok u /\ band_mul B y = Ok v /\
+                    Model.Vector.vsub u v = Ok uv /\ band_mul B xy = Ok uv.
+Print Assumptions band_mul_sub.
+
+Theorem band_mul_scale_vec : forall (A : Arith), RingLaws A -> forall (B : banded A) (x : list A) (a : A),
+  wfB B -> length x = bn B ->
+  exists u, band_mul B x = Ok u /\ band_mul B (Model.Vector.vscale x a) = Ok (Model.Vector.vscale u a).
+Proof. intros A RL B x a. exact (DenseBandLinear.band_mul_scale_vec_lemma RL B x a). Qed.
+Check band_mul_scale_vec : forall (A : Arith), RingLaws A -> forall (B : banded A) (x : list A) (a : A),
+  wfB B -> length x = bn B ->
+  exists u, band_mul B x = Ok u /\ band_mul B (Model.Vector.vscale x a) = Ok (Model.Vector.vscale u a).
+Print Assumptions band_mul_scale_vec.
+
+Theorem band_mul_zero : forall (A : Arith), RingLaws A -> forall (B : banded A), wfB B ->
+  band_mul B (repeat (@Arith.zero A) (bn B)) = Ok (repeat (@Arith.zero A) (bn B)).
+Proof. intros A RL B. exact (DenseBandLinear.band_mul_zero_lemma RL B). Qed.
+Check band_mul_zero : forall (A : Arith), RingLaws A -> forall (B : banded A), wfB B ->
+  band_mul B (repeat (@Arith.zero A) (bn B)) = Ok (repeat (@Arith.zero A) (bn B)).
+Print Assumptions band_mul_zero.
